@@ -198,6 +198,13 @@ UNIT_CASES = [
     (('or', ('s_next', X), Y), '(s_next(x)) or (y)', (250, 'ms'), 's'),
     (('or', ('next', X), Y), '(next(x)) or (y)', (2, 's'), 's'),
     (('and', ('eventually_t', X, 1, 2), ('next', Y)), '(eventually[1s,2s](x)) and (next(y))', (1, 's'), 'ms'),
+    # strong and weak next below / beside operators of larger horizon, sampling period other than the default unit
+    (('and', ('s_next', X), ('eventually_t', Y, 0, 2)), '(s_next(x)) and (eventually[0,1](y))', (500, 'ms'), 's'),
+    (('and', ('next', X), ('eventually_t', Y, 0, 2)), '(next(x)) and (eventually[0,1](y))', (500, 'ms'), 's'),
+    (('or', ('s_next', ('s_next', X)), ('always_t', Y, 1, 4)), '(s_next(s_next(x))) or (always[0.5,2](y))', (500, 'ms'), 's'),
+    (('eventually_t', ('s_next', X), 0, 2), 'eventually[0,500ms](s_next(x))', (250, 'ms'), 's'),
+    (('until_t', ('s_next', X), Y, 1, 2), '(s_next(x)) until[2,4] (y)', (2, 's'), 's'),
+    (('and', ('s_next', X), ('eventually_t', Y, 0, 3)), '(s_next(x)) and (eventually[0,3s](y))', (1, 's'), 'ms'),
     # a unit on ONE bound only, different from the default unit, the unit-less bound not 0: it takes the other bound's unit
     (('eventually_t', X, 1, 3), 'eventually[1:3ms](x)', (1, 'ms'), 's'),
     (('always_t', X, 2, 4), 'always[2ms:4](x)', (1, 'ms'), 's'),
